@@ -556,7 +556,8 @@ Inductive c08case :=
             (completed : bool)
   (* the implementation ran these call sequences on real threads; [completed] = no watchdog *)
 | CLife (e : life_event) (interval_ms window_ms : N) (exited : bool)
-  (* the ticker thread was gone [window_ms] after the event *)
+  (* the ticker thread was gone [window_ms] after the event.  NO LONGER EMITTED by the harness: [life_exits] is
+     true for every event it can produce whatever the interval, the case carried no information *)
 | CManualTick (installed : bool) (manual_ticks : nat) (tick_before tick_after : N).
   (* spinner tick observed before / after [manual_ticks] calls of tick() *)
 
